@@ -160,12 +160,13 @@ class Runner:
         self.env = child_env()
         self.procs: set = set()
         self.lock = threading.Lock()
+        self.stopped = False
 
     def run_batch(self, idx: int, conds: list) -> dict:
         path = os.path.join(self.tmp, f"c19_batch{idx:02d}.py")
         where = write_module(path, self.header, conds)
         left = self.deadline - time.time()
-        if left < 15:
+        if self.stopped or left < 15:
             return {c.name: Verdict(c, "unknown", "not started: route P deadline of this tier reached", batch=idx)
                     for c in conds}
         tmo = max(c.timeout for c in conds)
@@ -210,6 +211,7 @@ class Runner:
         return out
 
     def kill_all(self):
+        self.stopped = True
         with self.lock:
             for p in list(self.procs):
                 try:
